@@ -75,7 +75,7 @@ def add_arity(db, est):
 # R-COUNT
 
 
-def r_count(ctx, db, est, cfgname, expect_merge=True):
+def r_count(ctx, db, est, cfgname, expect_merge=True, check_add=True):
     """sample-size discipline: add increments the count exactly once by 1 on every path; merge adds
     other's count exactly; is_empty() == (len() == 0)."""
     tag = "%s@%s" % (est.path, cfgname)
@@ -86,7 +86,7 @@ def r_count(ctx, db, est, cfgname, expect_merge=True):
         return None
     # (i) add
     addp = est.add
-    if addp:
+    if addp and check_add:
         f = db.fns[addp]
 
         def build(m):
